@@ -53,12 +53,32 @@ def ob_swap(ctx):
             cit = 1 + ctx.mk.pick("cit", R)
             rec.features.append(st.SeqFeature(st.SimpleLocation(0, 2, strand=1), type="CDS",
                                               qualifiers={"label": ["L"], "citation": ["[%d]" % cit]}))
-        return Mod(rec, st.Seq(starts[i]), st.Seq(ends[i]),
-                   (lambda: st.SeqRecord(st.Seq(starts[i] + body), id=ident)))
+        def fragment():
+            fr = st.SeqRecord(st.Seq(starts[i] + body), id=ident)
+            tr = track_kind if ident == "repl" else ("list" if P.get("tracks") else None)
+            if tr is not None:
+                # sequencing-quality values attached to the letters of the fragment (a list, or a tuple, per record)
+                vals = [20 + i] * (k + len(body) if isinstance(body, str) else fr_len(fr))
+                fr.letter_annotations["phred_quality"] = vals if tr == "list" else tuple(vals)
+            return fr
+
+        return Mod(rec, st.Seq(starts[i]), st.Seq(ends[i]), fragment)
+
+    track_kind = None
+    if P.get("tracks"):
+        track_kind = [None, "list", "tuple"][ctx.mk.pick("repl_track", 3)]
+
+    def fr_len(fr):
+        return slen(sdata(fr.seq))
+
+    def vfragment():
+        fr = st.SeqRecord(st.Seq(up + vbody), id="vec")
+        if P.get("tracks"):
+            fr.letter_annotations["phred_quality"] = [40] * (k + 3)
+        return fr
 
     mods = [module(i, bodies[i], "m%d" % i) for i in range(m)]
-    vec = Vec(st.record.CircularRecord(st.Seq("ACGT"), id="vec"), st.Seq(up), st.Seq(down),
-              lambda: st.SeqRecord(st.Seq(up + vbody), id="vec"))
+    vec = Vec(st.record.CircularRecord(st.Seq("ACGT"), id="vec"), st.Seq(up), st.Seq(down), vfragment)
     o1 = run_assemble(st, vec, mods)
     ctx.observe("kind", o1["kind"])
     ctx.witness(o1["kind"])
@@ -85,6 +105,13 @@ def ob_swap(ctx):
     rest = n1 - (before + old_len)
     ctx.require(And([Eq(sat(p1, before + old_len + q), sat(p2, before + new_len + q)) for q in range(rest)]),
                 "suffix-differs")
+    # whatever per-letter values the product carries, they too may differ only inside the replaced segment
+    t1, t2 = o1["product"].letter_annotations, o2["product"].letter_annotations
+    for key in t1:
+        ctx.require(key in t2, "replacement-strips-per-letter-values-of-the-other-segments")
+        a, b = list(t1[key]), list(t2[key])
+        ctx.require(a[:before] == b[:before] and a[before + old_len:] == b[before + new_len:],
+                    "per-letter-values-of-other-segments-differ")
     ctx.witness("replaced-first", chain.index(j) == 0)
     ctx.witness("replaced-later", chain.index(j) > 0)
     return True
@@ -173,6 +200,9 @@ def obligations(tier, seed):
     for m in (1, 2):
         obs.append(Ob("swap among m=%d stubs, the replacement carries 12 references and a citing feature" % m, ob_swap,
                       dict(m=m, newlen=3, annotated=12), samples=10, cost=12 * 10 ** m, expect_witness=("product",), group="annotated"))
+    for m in (2, 3):
+        obs.append(Ob("swap among m=%d stubs whose fragments carry per-letter values (replacement: none, list or tuple)" % m, ob_swap,
+                      dict(m=m, newlen=3, tracks=True), samples=10, cost=3 * 10 ** m, expect_witness=("product",), group="tracks"))
     names = ["BsaI", "BbsI", "SapI"] if tier == "quick" else [v[0] for k, v in sorted(geometries().items())]
     for e in names:
         for j in (0, 1):
